@@ -146,7 +146,7 @@ pub fn opt_datatype_eq(a: &Option<DataType>, b: &Option<DataType>) -> (r: bool)
         answers(r, uri, implementation_target(cursor.doc, cursor.context, cursor_ident(cursor)), cursor.doc.text@), //# implementation::the_name_of_the_called_procedure_s_declaration
 //@end
 //~assume the symbol table's ranges name existing tokens (`table_ok`, `context_ok`: established by the table builder from the parser's ranges); the context entry is the entry of the declaration that contains the cursor (`doc_cursor`, async, not under contract); valid program: inside a type declaration an identifier names `int` or a declared entity
-//~not_decided `doc_cursor` (which declaration contains the cursor; async + iterator chain), `DocumentCursor::ident` (assumed: first token containing the index), that `definition` forwards to `declaration` (one-line async fn)
+//~not_decided that `definition` forwards to `declaration` (one-line async fn); `doc_cursor` and `DocumentCursor::ident` are under contract in unit `cursor` (used here by contract)
 
 }
 fn main() {}
